@@ -623,6 +623,30 @@ func (u *Unit) arith(st *State, op token.Token, a, b Val, T types.Type, x ast.No
 				return scalar(fmt.Sprintf("(ite (= %s 1) %s (+ %s %s))", bit, a.S, a.S, tInt(m)), SInt, T)
 			}
 		}
+		if op == token.OR {
+			// (x << k) | y with 0 <= y < 2^k is x*2^k + y (big-endian assembly of bytes); the shift is rendered as (* x 2^k)
+			shifted := func(t Term) (int64, bool) {
+				n := parseSx(t)
+				if n == nil || len(n.kids) != 3 || n.kids[0].atom != "*" {
+					return 0, false
+				}
+				if m, ok := isIntLit(n.kids[2].String()); ok && isPow2(m) && m > 1 {
+					return m, true
+				}
+				return 0, false
+			}
+			hi, lo := a, b
+			m, ok := shifted(hi.S)
+			if !ok {
+				hi, lo = b, a
+				m, ok = shifted(hi.S)
+			}
+			if ok {
+				v := u.freshVal("bitop", T)
+				st.assume(u.typeAssume(v))
+				return scalar(tIte(tAnd(tLe("0", lo.S), tLt(lo.S, tInt(m))), tAdd(hi.S, lo.S), v.S), SInt, T)
+			}
+		}
 		u.note("abstracted", "bit operation "+exprStr(u.eng.fset, x))
 		v := u.freshVal("bitop", T)
 		st.assume(u.typeAssume(v))
@@ -1004,7 +1028,14 @@ func (u *Unit) evalTypeAssert(st *State, x *ast.TypeAssertExpr, commaOk bool) (V
 	}
 	ok := u.hasDynType(st, v.S, T)
 	if !commaOk {
-		u.oblige(st, "typeassert", exprStr(u.eng.fset, x), ok, x.Pos())
+		lbl := exprStr(u.eng.fset, x)
+		if sub := u.root().contract.Flags["assume_typeassert"]; sub != "" && strings.Contains(lbl, sub) {
+			// declared in the contract: this single-value type assertion is assumed to succeed (listed as an assumption)
+			u.note("assumptions", "type assertion assumed to succeed (flag assume_typeassert): "+lbl)
+			st.assume(ok)
+		} else {
+			u.oblige(st, "typeassert", lbl, ok, x.Pos())
+		}
 		return u.unbox(st, v.S, T), ok
 	}
 	res := u.unbox(st, v.S, T)
